@@ -5,6 +5,7 @@
 //! hooks in quinn-proto and prints one observation line per op followed by `#`.
 //! A panic inside a case is an outcome: the case prints `PANIC <message>` then `#`.
 mod asyncsim;
+mod hostile_tp;
 mod sim;
 use std::io::{self, BufRead, Write};
 use std::panic;
